@@ -4,10 +4,11 @@
 set -e
 cd "$(dirname "$0")"
 export PATH="$PATH:/opt/veriftools/lean/bin"
-python3 bin/genconsts.py /repo lean/OnetVerif/Generated.lean
-(cd lean && lake build)
 export GOFLAGS=-mod=mod GOPROXY=off GOSUMDB=off GOTOOLCHAIN=local
 cp /repo/go.sum harness/go.sum
 mkdir -p build
+python3 bin/genconsts.py /repo lean/OnetVerif/Generated.lean
+(cd harness && go build -o ../build/astfacts ./cmd/astfacts) && build/astfacts /repo lean/OnetVerif/Shapes.lean
+(cd lean && lake build)
 (cd harness && go build -tags verif -o ../build/onetharness_setup ./cmd/onetharness)
 echo setup ok
